@@ -2,9 +2,17 @@
 //! properties: C01
 //! note: FundedChannel::build_closing_transaction: a cooperative close pays each party its final balance less only the negotiated fee, paid by the funder
 //! trusted: R5: FundedChannel / ChannelContext / FundingScope / ChannelTransactionParameters are self skeletons with exactly the fields the body reads; FundingScope::is_outbound / get_value_satoshis are extracted and verified; ClosingTransaction::new is external_body and assumed to record the two output values; get_closing_scriptpubkey / funding_outpoint / into_bitcoin_outpoint / ScriptBuf::clone are external_body (scripts and outpoints are opaque); R8: `ChannelError::close(format!(..))` replaced by a stub constructor (error text has no effect on the result value's variant)
+//! trusted: R15 (deep slice): closing_signed: the unit extracts the whole fee-negotiation statement (fee-range and legacy branches) that follows calculate_closing_fee_limits, verbatim, as a function of (msg, our_min_fee, our_max_fee); the function-local macro propose_fee!(X) (builds, signs and returns the closing transaction with fee X) is replaced by `return Ok(X)`; signature checks and transaction building before it are dropped and not claimed; error strings dropped (R8); assume_specification for u64::div_ceil and core::cmp::min / core::cmp::max (std definitions)
+//! assume: closing_signed negotiation: our_min_fee <= our_max_fee; the fee we sent last lies within our limits; for the non-paying side our_max_fee is the peer's whole balance (calculate_closing_fee_limits)
 //! assume: no pending HTLCs or fee update (LDK's assert!s); channel value <= 21e14 sat; value_to_self_msat <= channel value; the funder's balance covers the proposed fee (established by the closing-fee negotiation; LDK's own debug_assert!s)
 use vstd::prelude::*;
 verus! {
+use vstd::std_specs::cmp::*;
+use core::cmp;
+pub assume_specification<T: core::cmp::Ord>[core::cmp::max::<T>](a: T, b: T) -> (r: T)
+    ensures T::obeys_cmp_spec() ==> r == (if b.cmp_spec(&a) == core::cmp::Ordering::Less { a } else { b });
+pub assume_specification<T: core::cmp::Ord>[core::cmp::min::<T>](a: T, b: T) -> (r: T)
+    ensures T::obeys_cmp_spec() ==> r == (if b.cmp_spec(&a) == core::cmp::Ordering::Less { b } else { a });
 pub struct ScriptBuf {}
 impl Clone for ScriptBuf { #[verifier::external_body] fn clone(&self) -> Self { unimplemented!() } }
 pub struct ShutdownScript {}
@@ -77,6 +85,62 @@ impl FundedChannel {
     if skip_remote_output || value_to_counterparty as u64 <= self.context.holder_dust_limit_satoshis
 //@with
     if value_to_counterparty as u64 <= self.context.holder_dust_limit_satoshis
+//@end
+}
+
+// ---- cooperative close: which fee we answer a closing_signed with (R15 slice of FundedChannel::closing_signed) ----
+pub assume_specification[u64::div_ceil](x: u64, rhs: u64) -> (r: u64)
+    requires rhs != 0
+    ensures r as int == (if x as int % rhs as int == 0 { x as int / rhs as int } else { x as int / rhs as int + 1 });
+pub struct ClosingSignedFeeRange { pub min_fee_satoshis: u64, pub max_fee_satoshis: u64 }
+pub struct ClosingSignedMsg { pub fee_satoshis: u64, pub fee_range: Option<ClosingSignedFeeRange> }
+pub struct NegFunding { pub outbound: bool, pub value_satoshis: u64, pub value_to_self_msat: u64 }
+impl NegFunding {
+    #[verifier::external_body] pub fn is_outbound(&self) -> (r: bool) ensures r == self.outbound { unimplemented!() }
+    #[verifier::external_body] pub fn get_value_satoshis(&self) -> (r: u64) ensures r == self.value_satoshis { unimplemented!() }
+}
+pub struct NegCtx { pub last_sent_closing_fee: Option<(u64, u8, u8, u8)> }
+pub struct NegChannel { pub funding: NegFunding, pub context: NegCtx }
+pub enum NegError { Close(u8), Warn(u8) }
+impl NegError { #[verifier::external_body] pub fn close(_m: u8) -> (r: NegError) { unimplemented!() } }
+impl NegChannel {
+//@extract lightning/src/ln/channel.rs :: impl FundedChannel :: fn closing_signed
+//@strip msgs
+//@slice R15
+    let (our_min_fee, our_max_fee) = self.calculate_closing_fee_limits(fee_estimator); macro_rules! propose_fee { $m:any } $neg:any }
+//@with
+    fn answer_fee(&self, msg: &ClosingSignedMsg, our_min_fee: u64, our_max_fee: u64) -> Result<u64, NegError> {
+        $neg
+    }
+//@rw R8 *
+    propose_fee!($x);
+//@with
+    return Ok($x);
+//@rw R8 *
+    ChannelError::close(format!($f:any))
+//@with
+    NegError::close(0)
+//@rw R8 *
+    ChannelError::Warn(format!($f:any))
+//@with
+    NegError::Warn(0)
+//@ret r
+//@requires
+    our_min_fee <= our_max_fee,
+    self.funding.value_satoshis <= 21_000_000_0000_0000, self.funding.value_to_self_msat as int <= self.funding.value_satoshis as int * 1000,
+    // how calculate_closing_fee_limits defines the maximum for the side that does not pay (the code's debug_assert)
+    !self.funding.outbound ==> our_max_fee as int == self.funding.value_satoshis as int - (self.funding.value_to_self_msat as int + 999) / 1000,
+    // the fee we sent last was one of our own proposals
+    self.context.last_sent_closing_fee is Some ==> our_min_fee <= self.context.last_sent_closing_fee->Some_0.0 <= our_max_fee,
+//@ensures P C01 every-closing-fee-we-propose-or-accept-lies-within-our-own-limits-and-within-the-peers-announced-range
+    r is Ok ==> our_min_fee <= r->Ok_0 <= our_max_fee,
+    r is Ok && msg.fee_range is Some ==> msg.fee_range->Some_0.min_fee_satoshis <= msg.fee_satoshis <= msg.fee_range->Some_0.max_fee_satoshis
+        && r->Ok_0 <= msg.fee_range->Some_0.max_fee_satoshis,
+    r is Ok && msg.fee_range is Some && self.funding.outbound ==> r->Ok_0 == msg.fee_satoshis,
+//@mutant funder_accepts_a_fee_above_its_maximum
+    if msg.fee_satoshis < our_min_fee || msg.fee_satoshis > our_max_fee {
+//@with
+    if msg.fee_satoshis < our_min_fee {
 //@end
 }
 }
